@@ -162,6 +162,7 @@ impl Profile {
             }
             "C06" => {
                 p.name = "C06";
+                p.w_grow = 6; // long runs of trailing removed slots (storage that is given back) need big subtrees
                 p.w_churn_to = 3;
                 p.w_churn = 10;
                 p.w_remove = 14;
